@@ -17,7 +17,7 @@ import io
 from harness import core, histcheck, isoapi, isotie
 from harness.props import c01
 
-LEAN_MODULES = ['Pycdlib.Props.C04', 'Pycdlib.Props.Tie', 'Pycdlib.Props.C04PathTable', 'Pycdlib.Props.TiePack', 'Pycdlib.Props.C04Iso', 'Pycdlib.Props.TieGrow', 'Pycdlib.Props.C08Alloc']
+LEAN_MODULES = ['Pycdlib.Props.C04', 'Pycdlib.Props.Tie', 'Pycdlib.Props.C04PathTable', 'Pycdlib.Props.TiePack', 'Pycdlib.Props.C04Iso', 'Pycdlib.Props.TieGrow', 'Pycdlib.Props.C08Alloc', 'Pycdlib.Props.C04DirBytes']
 THEOREMS = ['Pycdlib.place_disjoint', 'Pycdlib.place_in_bounds', 'Pycdlib.place_end_exact', 'Pycdlib.space_delta_exact',
             'Pycdlib.sectors_fit', 'Pycdlib.insert_grows_le_one', 'Pycdlib.grow_keeps_fit', 'Pycdlib.shrink_keeps_fit',
             'Pycdlib.nfScan_append', 'Pycdlib.writer_matches_cache', 'Pycdlib.writer_no_straddle', 'Pycdlib.ceiling_div_tie',
@@ -26,7 +26,7 @@ THEOREMS = ['Pycdlib.place_disjoint', 'Pycdlib.place_in_bounds', 'Pycdlib.place_
             'Pycdlib.dr_recalc_tie', 'Pycdlib.dr_recalc_init_tie',
             'Pycdlib.Iso.space_exact', 'Pycdlib.Iso.dirs_covered', 'Pycdlib.Iso.path_tables_exact', 'Pycdlib.Iso.layout_sound',
             'Pycdlib.Iso.step_inv', 'Pycdlib.Iso.invB_iff', 'Pycdlib.Iso.init0_inv', 'Pycdlib.dr_grow_tie', 'Pycdlib.dr_shrink_tie',
-            'Pycdlib.Iso.ceb_ok', 'Pycdlib.Iso.cebOkB_iff']
+            'Pycdlib.Iso.ceb_ok', 'Pycdlib.Iso.cebOkB_iff', 'Pycdlib.DirBytes.render_length', 'Pycdlib.DirBytes.reachable_dir_fills']
 PARTIAL = {
     'space_exact_partial': 'Iso.space_exact proves declared size = from-scratch layout over EVERY history of the bookkeeping machine '
     '(directories of both hierarchies, path tables, contents with hard links, continuation blocks with the first-fit allocator that decides where an area lands and when a block is opened or given back, PVD copies, UDF directories '
